@@ -656,6 +656,27 @@ func (c *Ctx) lookupErrorOnlyForNeverCreated(rule string, lookup *ssa.Function, 
 			c.check(!found && !le, rule, key+" (never created)", w.At(ret), "error only when the id is neither in the table nor <= the high-water mark", "the lookup reports a protocol error for an id that is active or already disposed of")
 		case st != nil && isNilConst(st):
 			nNil++
+			// exactly: no further condition on the id (ids start wherever the peer starts them — the protocol says zero —
+			// so "id > 0" or the like turns a late frame for a legal finished id into a tunnel error)
+			extra := ""
+			for _, f := range factsAt(ret) {
+				x, op, y, ok := cmpFact(f)
+				if !ok {
+					continue
+				}
+				if origin(x) == ssa.Value(idp) {
+					if fr, _, isF := loadedField(y); isF && fr.Type == table.Type && op == token.LEQ {
+						continue
+					}
+					extra = desc(x) + " " + op.String() + " " + desc(y)
+				} else if origin(y) == ssa.Value(idp) {
+					if fr, _, isF := loadedField(x); isF && fr.Type == table.Type && op == token.GEQ {
+						continue
+					}
+					extra = desc(x) + " " + op.String() + " " + desc(y)
+				}
+			}
+			c.check(extra == "", rule, key+" (late frame): no further condition on the id", w.At(ret), "only id <= high-water mark", "the (no stream, no error) answer for finished ids is additionally conditional on "+extra+": a late frame for a finished stream with such an id (e.g. stream 0, which the protocol documents as the first id) is reported as 'never created' and ends the whole tunnel")
 			c.check(le && !found, rule, key+" (late frame)", w.At(ret), "(no stream, no error) only under id <= high-water mark", "the lookup silently ignores a frame for an id that was never created (id > high-water mark): protocol violations go unnoticed, or late frames for finished ids are misclassified")
 		}
 	}
